@@ -314,7 +314,16 @@ func nqDecodeImpl(data []byte, o nqDecodeOpts) (res nqDecoded) {
 
 func (d nqDecoded) String() string { return d.verdict + ";" + strings.Join(d.stmts, ";") }
 
+// nqDecLine: the case for the decoder model; "" when text offsets are compared and the text holds code points which
+// may combine into one grapheme cluster (the model's columns count code points; cursorio counts clusters).
 func nqDecLine(data []byte, o nqDecodeOpts) string {
+	if o.offsets {
+		for _, c := range string(data) {
+			if c >= 0x300 || c == 0x200d {
+				return ""
+			}
+		}
+	}
 	b := func(x bool) string {
 		if x {
 			return "1"
